@@ -3,7 +3,7 @@
 import ast
 import copy
 
-__all__ = ['skeleton', 'parse_expr', 'reaching_value', 'chain', 'is_chain', 'src', 'walk', 'stmts', 'Env', 'call_name', 'const',
+__all__ = ['path_condition', 'skeleton', 'parse_expr', 'reaching_value', 'chain', 'is_chain', 'src', 'walk', 'stmts', 'Env', 'call_name', 'const',
            'names_loaded', 'names_stored', 'is_none_test', 'strip_not', 'flatten_bool',
            'norm', 'same', 'kwarg', 'contains_name', 'iter_child_stmts', 'assigned_names',
            'targets_of']
@@ -350,3 +350,27 @@ def skeleton(node):
         else:
             parts.append('v')
     return f'{type(node).__name__}({",".join(parts)})'
+
+
+def path_condition(body, target):
+    """[(test, polarity)] under which statement ``target`` executes inside ``body`` (nesting of if/elif/else and preceding
+    guard clauses ``if c: return/raise``); None if the statement is not found or sits in a loop/try."""
+    def rec(block, conds):
+        conds = list(conds)
+        for s in block:
+            if s is target:
+                return conds
+            if isinstance(s, ast.If):
+                r = rec(s.body, conds + [(s.test, True)])
+                if r is not None:
+                    return r
+                r = rec(s.orelse, conds + [(s.test, False)])
+                if r is not None:
+                    return r
+                if s.body and isinstance(s.body[-1], (ast.Return, ast.Raise, ast.Continue, ast.Break)) and not s.orelse:
+                    conds = conds + [(s.test, False)]
+            elif isinstance(s, (ast.For, ast.While, ast.Try, ast.With)):
+                if any(n is target for n in ast.walk(s)):
+                    return None
+        return None
+    return rec(body, [])
